@@ -84,8 +84,10 @@ def build_problem(case):
     elif case["x0"] == "exact":
         x0 = xstar.astype(b.dtype)
     else:
+        xs_norm = np.linalg.norm(xstar.reshape(n, -1), axis=0)
+        xs_norm = np.where(xs_norm == 0, 1.0, xs_norm)  # a zero right-hand side still gets a non-zero guess (answer: exactly 0)
         x0 = (rng.standard_normal(shape) + (1j * rng.standard_normal(shape) if cplx else 0)).astype(b.dtype) * \
-            np.linalg.norm(xstar.reshape(n, -1), axis=0).reshape((1, -1) if b.ndim == 2 else ())
+            xs_norm.reshape((1, -1) if b.ndim == 2 else ())
     # preconditioner (Hermitian positive definite)
     pk = case["precond"]
     Pm = None
@@ -167,7 +169,10 @@ def run_cg(ctx, case, M, b, x0, Pm, counter, tol=None, max_iters=None, hard_cap=
     LOOPS.start(hard_cap=(max_iters + 5) if hard_cap is None else hard_cap)
     try:
         if case["via"] == "cg":
-            out = ctx.call(cg, A, b, x0=x0, P=Pop, tol=tol, max_iters=max_iters)
+            if case["seed"] % 3 == 0:  # the documented positional form cg(A, rhs, x0, P, tol, max_iters)
+                out = ctx.call(cg, A, b, x0, Pop, tol, max_iters)
+            else:
+                out = ctx.call(cg, A, b, x0=x0, P=Pop, tol=tol, max_iters=max_iters)
             if not is_err(out):
                 x, info = out
         else:
@@ -233,7 +238,9 @@ def run_case(ctx, case):
     rn = [np.linalg.norm(np.asarray(s[2]).reshape(n, -1), axis=0) for s in states]  # residuals of the *normalised* system
     r0n = rn[0]
     thresh = case["tol"] * (1 + r0n)
-    nonzero = bn > 0
+    # (a zero right-hand side is iterated in un-normalised form - it still has a residual -A x_k when a non-zero guess was
+    # given - and takes part in the stopping test like every other column)
+    nonzero = np.ones_like(bn, dtype=bool)
     if steps < case["max_iters"]:
         ok = np.all(rn[-1][nonzero] <= thresh[nonzero] * (1 + 1e-12))
         ctx.check("stopped-early-only-when-converged", bool(ok), site="cg", preds=preds,
